@@ -92,3 +92,49 @@ func runC11reg(r *vh.Rng, n int, w *vh.Writer) {
 		c11Reg(r, w)
 	}
 }
+
+// C09, the hub's part of "reported once, before setup" (coq/theories/RegRace.v, hid_case): the
+// connection calls Hub.ReportServiceShipID and then, on the same goroutine, Hub.SetupRemoteDevice
+// (the order proved for the connection model and observed on it); the application must have
+// received ServiceShipIDUpdate when SetupRemoteDevice reaches it.  The log of the application's
+// callbacks is read when SetupRemoteDevice has returned and again 20 ms later.
+func c09Hub(r *vh.Rng, w *vh.Writer) {
+	local, remote, _ := c05Pair(r)
+	id := vh.Pick(r, []string{"shipA", "", "id with spaces", "SHIP-ID-0123456789"})
+	l := &vh.Log{}
+	h := c05Hub(local, l)
+	h.ServiceForSKI(remote).SetTrusted(r.Bool())
+	h.ReportServiceShipID(remote, id)
+	h.SetupRemoteDevice(remote, nil)
+	time.Sleep(20 * time.Millisecond)
+	var codes []string
+	var human []string
+	for _, s := range l.Take() {
+		human = append(human, s)
+		switch {
+		case strings.HasPrefix(s, "OConnected "+vh.HxS(remote)):
+			codes = append(codes, "1")
+		case s == "OShipID "+vh.HxS(remote)+" "+vh.HxS(id):
+			codes = append(codes, "2")
+		case strings.HasPrefix(s, "OSetup "+vh.HxS(remote)):
+			codes = append(codes, "3")
+		case strings.HasPrefix(s, "OShipID"):
+			codes = append(codes, "4")
+		default:
+			codes = append(codes, "0")
+		}
+	}
+	w.Put(vh.Case{
+		Coq:        fmt.Sprintf("mkHubId %s", vh.List(codes)),
+		Nontrivial: true,
+		Key:        fmt.Sprintf("hubid|%s|%s|%s", local, remote, id),
+		Kind:       "hub_passes_ship_id_before_setup",
+		Sample:     map[string]any{"remote": remote, "ship_id": id, "application_callbacks_in_order": human},
+	})
+}
+
+func runC09hub(r *vh.Rng, n int, w *vh.Writer) {
+	for i := 0; i < n; i++ {
+		c09Hub(r, w)
+	}
+}
